@@ -76,6 +76,23 @@ def run_pairs_py(ns, res, pairs, where, tag):
         res.evaluations += 1
         if g is not exp:
             res.violation('py-like-mismatch' + ('-where' if where else ''), 'like(%r, %r) -> %r, reference %r (%s)' % (t, p, g, exp, tag), {'engine': 'py', 'pairs': [[t, p]], 'where': where})
+    # the pattern as a COMPUTED value: a string that exists only while the record is evaluated (whatever is remembered per pattern must be keyed by its text)
+    step = max(1, len(pairs) // 3000)
+    sample = pairs[::step][:3000]
+    out = []
+    try:
+        ns.rbql.query_table('select like(a1, (a2 + "%")[:-1]), like(a1, "%" + a2), like(a1 + "", "".join(list(a2)))', [list(x) for x in sample], out, [])
+    except Exception as e:
+        res.violation('py-like-raises', 'computed-pattern query over %d pairs raised %s: %s (first pair %r)' % (len(sample), util.error_class(e), str(e)[:200], sample[0]), {'engine': 'py', 'pairs': sample[:50], 'computed': True})
+        return
+    res.count('py_computed_pattern_queries')
+    for k_, ((t, p), r) in enumerate(zip(sample, out)):
+        exp = [refcsv.like(t, p), refcsv.like(t, '%' + p), refcsv.like(t, p)]
+        res.evaluations += 1
+        res.count('py_computed_pattern_evaluations')
+        if list(r) != exp:
+            res.violation('py-like-computed-pattern-mismatch', 'like(%r, <computed %r>), like(.., "%%" + pattern), like(.., <rebuilt pattern>) -> %r, reference %r (%s)' % (t, p, list(r), exp, tag), {'engine': 'py', 'pairs': sample[max(0, k_ - 20):k_ + 1], 'computed': True})
+            break
 
 
 def run_cross_js(node, res, texts, patterns, where, tag):
@@ -422,7 +439,7 @@ def summarize(tier, seed, m):
             PAT_LEN[tier], TXT_LEN[tier], ''.join(ALPHABET), JS_PAT_LEN[tier], JS_TXT_LEN[tier], RANDOM_PAIRS[tier],
             '; every length-5 pattern containing a wildcard (and 1/7 of the others) against texts derived from it (wildcard instantiations and their single-symbol edits)' if tier == 'thorough' else ''),
         'exhaustive': True,
-        'required': ['py_exhaustive_pairs', 'literal_patterns_with_raw_tab', 'long_pattern_pairs_over_16_tokens', 'js_long_pattern_pairs', 'py_random_pairs', 'py_newline_pairs', 'py_quantifier_pairs', 'py_word_pairs', 'py_literal_pattern_queries'],
+        'required': ['py_computed_pattern_evaluations', 'py_exhaustive_pairs', 'literal_patterns_with_raw_tab', 'long_pattern_pairs_over_16_tokens', 'js_long_pattern_pairs', 'py_random_pairs', 'py_newline_pairs', 'py_quantifier_pairs', 'py_word_pairs', 'py_literal_pattern_queries'],
         'assumptions': ['rv.model.refcsv.like is SQL LIKE', 'single-line texts only (no LF, CR, NEL, LS, PS), as quantified'],
     }
 
